@@ -183,15 +183,20 @@ def r12_3(ctx):
     n = ctx.norm(f)
     obj = [st for st in walk_no_nested(f.node) if isinstance(st, ast.Assign) and ast.unparse(st.targets[0]) == "ret._objective"]
     ok = len(obj) == 1 and ast.unparse(obj[0].value) == "res[n_constr]"
-    nd = [d for d in sc.defs.get("n_constr", []) if d.kind == "assign"]
-    ok = ok and len(nd) == 1 and ast.unparse(nd[0].value) == "len(orig)"
-    if ok:
-        # n_constr is taken after all constraints and before the objective is appended
-        a_obj = [c for c in walk_no_nested(f.node) if is_call_to(c, "append", "orig") and ast.unparse(c.args[0]) == "self._objective"]
-        e_con = [c for c in walk_no_nested(f.node) if is_call_to(c, "extend", "orig") and "_constraints" in ast.unparse(c.args[0])]
-        e_ini = [c for c in walk_no_nested(f.node) if is_call_to(c, "extend", "orig") and ast.unparse(c.args[0]) == "self._initial.keys()"]
-        ok = len(a_obj) == 1 and len(e_con) == 1 and len(e_ini) == 1 and sc.order[e_con[0]] < sc.order[nd[0].stmt] < sc.order[a_obj[0]] < sc.order[e_ini[0]]
-    ctx.check(ok, "clone unpacks the objective at the offset it was packed", detail="objective / constraints / guesses mixed up in the clone", expected="orig = constraints; n = len(orig); orig += [objective] + initial keys; objective = res[n]", found="", fi=f)
+    # order of events on the packed list: constraints ..., n_constr = len(orig), objective, guess keys
+    events = []
+    for st in walk_no_nested(f.node):
+        if isinstance(st, ast.Assign) and ast.unparse(st.targets[0]) == "orig" and "_constraints" in ast.unparse(st.value):
+            events.append((sc.order[st], "constraints"))
+        elif isinstance(st, ast.Assign) and ast.unparse(st.targets[0]) == "n_constr" and ast.unparse(st.value) == "len(orig)":
+            events.append((sc.order[st], "len"))
+        elif isinstance(st, ast.Call) and isinstance(st.func, ast.Attribute) and ast.unparse(st.func.value) == "orig" and st.func.attr in ("extend", "append") and st.args:
+            t = ast.unparse(st.args[0])
+            events.append((sc.order[st], "constraints" if "_constraints" in t else "objective" if t == "self._objective" else "initial" if t == "self._initial.keys()" else "other:" + t))
+    seq = [e for _, e in sorted(events)]
+    dedup = [e for i, e in enumerate(seq) if i == 0 or e != seq[i - 1]]
+    ok = ok and dedup == ["constraints", "len", "objective", "initial"]
+    ctx.check(ok, "clone unpacks the objective at the offset it was packed", detail="objective / constraints / guesses mixed up in the clone", expected="orig = constraints; n = len(orig); orig += [objective] + initial keys; objective = res[n]", found=str(dedup), fi=f)
     ini = [st for st in walk_no_nested(f.node) if isinstance(st, ast.Assign) and ast.unparse(st.targets[0]) == "ret._initial"]
     ok = len(ini) == 1 and Norm(None).key(ini[0].value) == Norm(None).key(ast.parse("HashOrderedDict(zip(res[n_constr+1:], self._initial.values()))", mode="eval").body)
     ctx.check(ok, "clone pairs the substituted guess keys with the template's guess values", detail="guess table of the clone", expected="HashOrderedDict(zip(res[n_constr+1:], self._initial.values()))", found=ast.unparse(ini[0].value) if ini else None, fi=f)
@@ -254,7 +259,10 @@ def r12_6(ctx):
     P = ctx.prog
     f = P.own_method("Stage", "__deepcopy__")
     asg = {ast.unparse(st.targets[0]): ast.unparse(st.value) for st in walk_no_nested(f.node) if isinstance(st, ast.Assign)}
-    for k, v in (("cp._var_original", "self"), ("self._var_augmented", "cp"), ("cp._method", "self._method")):
+    cps = [st.targets[0].id for st in walk_no_nested(f.node) if isinstance(st, ast.Assign) and isinstance(st.targets[0], ast.Name) and isinstance(st.value, ast.Call)
+           and ast.unparse(st.value.func) in ("copy.deepcopy", "deepcopy") and st.value.args and ast.unparse(st.value.args[0]) == "self"]
+    cpn = cps[0] if cps else "cp"
+    for k, v in ((cpn + "._var_original", "self"), ("self._var_augmented", cpn), (cpn + "._method", "self._method")):
         ctx.check(asg.get(k) == v, "Stage.__deepcopy__: %s = %s" % (k, v), detail="original/copy link", expected=v, found=asg.get(k), fi=f)
     g = P.own_method("Stage", "method")
     a = [st for st in walk_no_nested(g.node) if isinstance(st, ast.Assign) and ast.unparse(st.targets[0]) == "self._method"]
